@@ -109,7 +109,7 @@ def make_state(model, q, p, direction=1):
         if q is None:
             return None
         J = model.con.jac(q)
-        if np.linalg.cond(J @ model.Minv_const @ J.T) > 1e4:
+        if zoo.gram_ill_conditioned(J, model.Minv_const):
             return None
         p = zoo.project_to_cotangent(J, model.Minv_const, p)
     return ChainState(pos=q.copy(), mom=p.copy(), dir=direction), q, p
